@@ -216,6 +216,13 @@ def run(ctx):
             if not opcount.get(("setop", kind, False, out)) and not (ctx.violations):
                 raise core.MachineryFailure(f"C18: {kind} never observed with outcome {out}")
     ctx.cov["relation_setops_validated"] = sum(t["nset"] for t in rel_tr)
+    ctx.cov["relation_device_probe_transforms"] = sum(t["nprobe"] for t in rel_tr)
+    ctx.cov["relation_traces_per_place"] = dict(collections.Counter(str(tuple(t["place"])) for t in rel_tr))
+    if not ctx.violations:
+        if ctx.cov["relation_device_probe_transforms"] < 50 or ctx.cov["relation_setops_validated"] < 50:
+            raise core.MachineryFailure("C18: too few relation cases with device probe points / set operations (vacuous)")
+        if any(sum(1 for t in rel_tr if tuple(t["place"]) == pl) < 10 for pl in pa.PLACES):
+            raise core.MachineryFailure("C18: too few relation traces at one of the places (vacuous)")
     for n in sorted(acc_c)[:2]:
         t = full_trace(n)
         ctx.sample({"chain": t["key"], "forms": t["forms"], "last_event": {k: t["ev"][-1][k] for k in ("op", "out", "res", "objs", "devs")}})
